@@ -153,16 +153,189 @@ def run(ctx):
     cd = repo.nfunc(CDP, 'cdp_delta')
     ce = repo.nfunc(CDP, 'cdp_eps')
     cr = repo.nfunc(CDP, 'cdp_rho')
+    # helpers that compute cdp_delta's optional arguments stay calls in the inverse searches (their body is analysed inside cdp_delta)
+    helpers = {U(c.func) for e_ in default_computations(cd).values() for c in ast.walk(e_) if isinstance(c, ast.Call) and isinstance(c.func, ast.Name)}
+    if helpers:
+        from ..normalise import normalised_keeping
+        ce = normalised_keeping(repo, repo.func(CDP, 'cdp_eps'), helpers)
+        cr = normalised_keeping(repo, repo.func(CDP, 'cdp_rho'), helpers)
     check_cdp_delta(ctx, cd)
     check_inverse(ctx, ce, cd, searched=1, kind='eps')
     check_inverse(ctx, cr, cd, searched=0, kind='rho')
     ctx.floor('obligations on cdp2adp.py', len(ctx.obligations), 12)
 
 
+def default_computations(cd):
+    """new optional parameters of cdp_delta that default to None and are computed when absent: {param: expression in cdp_delta's own
+    parameters} read off `if p is None: p = E` at the top level of the (un-inlined) function"""
+    raw = getattr(cd, 'original', cd)
+    out = {}
+    for st in raw.node.body:
+        if isinstance(st, ast.If) and isinstance(st.test, ast.Compare) and len(st.test.ops) == 1 and isinstance(st.test.ops[0], ast.Is) \
+                and isinstance(st.test.left, ast.Name) and U(st.test.comparators[0]) == 'None' and len(st.body) == 1 and not st.orelse \
+                and isinstance(st.body[0], ast.Assign) and U(st.body[0].targets[0]) == st.test.left.id:
+            out[st.test.left.id] = st.body[0].value
+    return out
+
+
+def split_probes(fi):
+    """-> (fi without them, [probe statements], [stores into module-level state]).  A probe is a conditional before the search loop that
+    assigns a name the loop assigns (a bracket end); module-level state (`_last[0] = alpha`) is bookkeeping for such probes."""
+    from ..normalise import NormFunc
+    node = clone(fi.node)
+    loops = [i for i, s_ in enumerate(node.body) if isinstance(s_, (ast.For, ast.While))]
+    if len(loops) != 1:
+        return fi, [], []
+    li = loops[0]
+    loop_assigned = {n.id for n in ast.walk(node.body[li]) if isinstance(n, ast.Name) and isinstance(n.ctx, ast.Store)}
+    local = {n.id for n in ast.walk(node) if isinstance(n, ast.Name) and isinstance(n.ctx, ast.Store)} | set(fi.params)
+    probes, state, keep = [], [], []
+    for i, s_ in enumerate(node.body):
+        stored = {n.id for n in ast.walk(s_) if isinstance(n, ast.Name) and isinstance(n.ctx, ast.Store)}
+        if i < li and isinstance(s_, ast.If) and stored & loop_assigned:
+            probes.append(s_)
+        elif isinstance(s_, ast.Assign) and len(s_.targets) == 1 and isinstance(s_.targets[0], ast.Subscript) \
+                and isinstance(s_.targets[0].value, ast.Name) and s_.targets[0].value.id not in local:
+            state.append(s_)
+        else:
+            keep.append(s_)
+    if not probes and not state:
+        return fi, [], []
+    node.body = keep
+    ast.fix_missing_locations(node)
+    for n in ast.walk(node):
+        for ch in ast.iter_child_nodes(n):
+            ch._parent = n
+    return NormFunc(getattr(fi, 'original', fi), node, getattr(fi, 'inlined', []), getattr(fi, 'memo_issues', ())), probes, state
+
+
+def check_probes(ctx, fi, S, probes, state):
+    """A probe before the loop is one more bisection step at a point of its own choosing: sound for ANY point h strictly inside the
+    bracket, provided the end that moves to h is the one the loop itself would move for the sign of the steering quantity AT h.  Any other
+    change of a bracket end (moved without the steering quantity being evaluated at the new position) can put the optimum outside the
+    bracket; the search then sticks at that end.  The probe point may come from anywhere (e.g. remembered from an earlier call): no
+    claim is made about its value."""
+    ends = {S.true_var: True, S.false_var: False}
+
+    def paths(stmts, conds, assigns):
+        for i, s_ in enumerate(stmts):
+            if isinstance(s_, ast.If):
+                rest = stmts[i + 1:]
+                out = []
+                out += paths(s_.body + rest, conds + [(s_.test, True)], dict(assigns))
+                out += paths(s_.orelse + rest, conds + [(s_.test, False)], dict(assigns))
+                return out
+            if isinstance(s_, ast.Assign) and len(s_.targets) == 1 and isinstance(s_.targets[0], ast.Name):
+                assigns = dict(assigns)
+                assigns.setdefault(s_.targets[0].id, []).append((s_, s_.value, list(conds)))
+            elif isinstance(s_, ast.Assign) and len(s_.targets) == 1 and isinstance(s_.targets[0], ast.Tuple) and isinstance(s_.value, ast.Tuple):
+                assigns = dict(assigns)
+                for t_, v_ in zip(s_.targets[0].elts, s_.value.elts):
+                    if isinstance(t_, ast.Name):
+                        assigns.setdefault(t_.id, []).append((s_, v_, list(conds)))
+            elif not isinstance(s_, (ast.Pass, ast.Expr)):
+                raise AnalysisError('%s: statement `%s` in a probe before the search is not decided' % (fi.qualname, U(s_)[:60]))
+        return [assigns]
+
+    def conjuncts(conds):
+        out = []
+        for t, pol in conds:
+            t, pol = strip_not(t, pol)
+            if pol and isinstance(t, ast.BoolOp) and isinstance(t.op, ast.And):
+                out += [(x, True) for x in t.values]
+            else:
+                out.append((t, pol))
+        return out
+
+    def inside(h, conds):
+        """do the conditions put h strictly between the two ends?"""
+        below, above = set(), set()
+        for t, pol in conjuncts(conds):
+            if not pol or not isinstance(t, ast.Compare):
+                continue
+            terms = [t.left] + list(t.comparators)
+            for (x, op, y) in zip(terms, t.ops, terms[1:]):
+                if isinstance(op, (ast.Lt, ast.LtE)):
+                    lo_, hi_ = x, y
+                elif isinstance(op, (ast.Gt, ast.GtE)):
+                    lo_, hi_ = y, x
+                else:
+                    continue
+                if T(hi_) == h and T(lo_) in ends:
+                    below.add(T(lo_))
+                if T(lo_) == h and T(hi_) in ends:
+                    above.add(T(hi_))
+        return len(below) == 1 and len(above) == 1 and below != above
+
+    def steer_at(h, conds):
+        """polarity of the loop's own steering test evaluated at h, if the path has established one"""
+        want = Replace(lambda n: ast.parse(h, mode='eval').body if isinstance(n, ast.Name) and n.id == S.MID else None).visit(clone(S.test))
+        atoms = Atoms()
+        for t, pol in conjuncts(conds):
+            t, pol = strip_not(t, pol)
+            if T(t) == T(want):
+                return pol
+            if isinstance(t, ast.Compare) and isinstance(want, ast.Compare) and len(t.ops) == 1 and type(t.ops[0]) is type(want.ops[0]):
+                try:
+                    ev = SymEval({}, atoms)
+                    if (ev.ev(t.left) - ev.ev(t.comparators[0])).eq(ev.ev(want.left) - ev.ev(want.comparators[0])):
+                        return pol
+                except AnalysisError:
+                    pass
+        return None
+    n = 0
+    for P in probes:
+        for assigns in paths([P], [], {}):
+            for var, lst in assigns.items():
+                if var not in ends:
+                    continue
+                for st, val, conds in lst:
+                    n += 1
+                    h = T(val)
+                    pol = steer_at(h, conds)
+                    ok = pol is not None and pol == ends[var] and inside(h, conds)
+                    why = 'the steering quantity is not evaluated at the new position' if pol is None else \
+                        ('the loop moves the other end for this sign of the steering quantity' if pol != ends[var] else
+                         ('the new position is not known to lie strictly inside the bracket' if not inside(h, conds) else 'one more bisection step at `%s`' % h))
+                    ctx.ob('probe-step', fi, st, ok,
+                           'before the search loop the bracket end `%s` is moved to `%s`: %s' % (var, U(val)[:60], why),
+                           construct='probe `%s = %s`' % (var, U(val)[:50]))
+    # module-level state: may only feed probes
+    names = {s_.targets[0].value.id for s_ in state}
+    for nm in names:
+        reads = [x for x in ast.walk(getattr(fi, 'original', fi).node) if isinstance(x, ast.Name) and x.id == nm and isinstance(x.ctx, ast.Load)]
+        feeding = set()
+        for s_ in getattr(fi, 'original', fi).node.body:
+            if isinstance(s_, ast.Assign) and len(s_.targets) == 1 and isinstance(s_.targets[0], ast.Name) and any(x in reads for x in ast.walk(s_.value)):
+                feeding.add(s_.targets[0].id)
+        for x in reads:
+            par = getattr(x, '_parent', None)
+            top = x
+            while getattr(top, '_parent', None) is not None and top._parent is not getattr(fi, 'original', fi).node:
+                top = top._parent
+            ok_use = (isinstance(top, ast.Assign) and len(top.targets) == 1 and (isinstance(top.targets[0], ast.Name) or top in state
+                                                                                 or U(top.targets[0]).startswith(nm))) \
+                or any(top is P_ or U(top) == U(P_) for P_ in probes)
+            if not ok_use:
+                raise AnalysisError('%s: module-level state `%s` is read outside the probes before the search' % (fi.qualname, nm))
+        # a local fed from the state may only be used inside the probes
+        body_wo = [s_ for s_ in fi.node.body]
+        for loc in feeding:
+            used = [x for s_ in body_wo for x in ast.walk(s_) if isinstance(x, ast.Name) and x.id == loc and isinstance(x.ctx, ast.Load)]
+            if used:
+                raise AnalysisError('%s: `%s` (read from module-level state) is used outside the probes before the search' % (fi.qualname, loc))
+    return n
+
+
 def check_cdp_delta(ctx, fi):
     ctx.analysed(fi)
+    from ..normalise import at_defaults
+    fi, _extra = at_defaults(fi, tuple(fi.params[:2]))
     rho, eps = fi.params[0], fi.params[1]
+    fi, probes, state = split_probes(fi)
     S = Search(fi)
+    if probes or state:
+        check_probes(ctx, fi, S, probes, state)
     check_termination(ctx, fi, S)
     check_skip(ctx, fi, S)
     alpha = S.MID
@@ -590,6 +763,24 @@ def check_inverse(ctx, fi, cd, searched, kind):
     l, op, r = S.compare()
     if not (isinstance(l, ast.Call) and U(l.func) == cd.name) and isinstance(r, ast.Call) and U(r.func) == cd.name and op in FLIP:
         l, op, r = r, FLIP[op], l
+    if isinstance(l, ast.Call) and U(l.func) == cd.name and (len(l.args) > 2 or l.keywords):
+        # explicit values for parameters cdp_delta computes itself when they are absent: the bound the search inverts is the OPTIMISED one,
+        # so the value handed in must be what cdp_delta would compute for the very same (rho, eps)
+        comps = default_computations(cd)
+        raw_params = getattr(cd, 'original', cd).params
+        given = {raw_params[i]: a_ for i, a_ in enumerate(l.args) if i >= 2 and i < len(raw_params)}
+        given.update({k.arg: k.value for k in l.keywords})
+        for p_, a_ in given.items():
+            if p_ not in comps:
+                raise AnalysisError('%s: `%s` passes `%s`, a parameter whose default computation was not found' % (fi.qualname, U(l)[:60], p_))
+            sub = {raw_params[0]: l.args[0], raw_params[1]: l.args[1]}
+            want_ = Replace(lambda n: clone(sub[n.id]) if isinstance(n, ast.Name) and n.id in sub else None).visit(clone(comps[p_]))
+            ctx.ob('sound-side', fi, S.loop, T(a_) == T(want_),
+                   'the search inverts the optimised bound: the `%s` handed to %s must be the one it computes itself for the same arguments, `%s`; '
+                   'got `%s`%s' % (p_, cd.name, U(want_), U(a_)[:80], '' if T(a_) == T(want_) else
+                                   ' - a value fixed for another point of the bracket gives a looser bound, and the search stops at a larger result'),
+                   construct='explicit %s in the search test of %s' % (p_, fi.name))
+        l = ast.Call(func=l.func, args=list(l.args[:2]), keywords=[])
     if not (isinstance(l, ast.Call) and U(l.func) == cd.name and len(l.args) == 2):
         raise AnalysisError('%s: search test must compare %s(...) with delta; got `%s`' % (fi.qualname, cd.name, U(S.test)))
     call = l
